@@ -96,6 +96,11 @@ theorem C15_row_containers (f : OdsFeatures) (rows : List (List Str × Nat)) :
 example : odsRows (some (regroupDoc (encodeDoc { colRuns := true } [[[['a']], [['b'], ['b']], [['c']], [['d']], [['e']]]]))) 1
     = .rows [[some ['a']], [some ['b'], some ['b']], [some ['c']], [some ['d']], [some ['e']]] := by decide +kernel
 
+/-- cells covered by a merge (`table:covered-table-cell`) take up their column (before the repair they were skipped and the cells
+after them moved to the left) -/
+example : odsRows (some (coverDoc (encodeDoc { colRuns := true } [[[['a'], [], ['c'], ['c']], [['x'], ['y']]]]))) 1
+    = .rows [[some ['a'], some [], some ['c'], some ['c']], [some ['x'], some ['y']]] := by decide +kernel
+
 /-- non-vacuity: column runs and spans on, two sheets: the hypotheses of the theorem are met -/
 example : odsRows (some (encodeDoc { colRuns := true, spans := true } [[[['x']]], [[['a'], ['a'], ['a'], []], [['b']]]])) 2
     = .rows [[some ['a'], some ['a'], some ['a'], some []], [some ['b']]] :=
